@@ -81,7 +81,7 @@ _MORE = {
             "lemma M5 in Lean). Writers (CSV rows, GEFF subgraph, chunk-wise masking): bounded stand-in on sampled forests/subsets with/without segmentation.",
             "contract-based deductive verification (loop invariant, transitive-closure model) + bounded stand-in for the writers"),
     "C16": ("Frame condition 'modifies nothing reachable from the tracks' decided by a may-alias analysis of the real AST of the exporters, savers and 27 queries (35 obligations), "
-            "third-party callees assumed read-only; plus deep-snapshot bounded check.", "static frame analysis of the real AST (may-alias) + bounded stand-in"),
+            "networkx views/accessors, attribute getters and np.asarray propagate the alias (only copies and freshly built containers are fresh); third-party callees assumed read-only; plus deep-snapshot bounded check.", "static frame analysis of the real AST (may-alias) + bounded stand-in"),
     "C17": ("_match_exact (functional spec), _match_fuzzy (step contract: never overwrites, each consumed column under exactly one new key), _map_remaining_to_self and the bodies of "
             "infer_node_name_map / infer_edge_name_map proved: every column used by exactly one key, a column spelled like a required key or seg_id mapped to it. "
             "The two display-name steps (_match_display_names_exact / _fuzzy, multi-column features included) are proved against the same step contract. build_display_name_mapping proved to produce only keys of the given features. Assumed: difflib / str.lower. "
